@@ -59,7 +59,7 @@ def parseHeadersLoop : Nat → BufR → Nat → Headers → RR Headers × BufR
          | .skip => parseHeadersLoop fuel r' maxHeaders hs
          | .field n v =>
            -- `try_append`: capacity error mapped to InvalidResponseKind::Header
-           if hs.distinctNames ≥ Headers.maxSize ∧ ¬ hs.contains n then (.err .header, r')
+           if Headers.full hs n then (.err .header, r')
            else parseHeadersLoop fuel r' maxHeaders (hs.append n v))
     | (.err e, r') => (.err e, r')
     | (.blocked, r') => (.blocked, r')
